@@ -49,9 +49,9 @@ Proof. exact Proofs.Intra.check_closed_forward. Qed.
 
 (* ---- T-gen: the case/arity table of isHandledBuiltinCall / doBuiltinCall, regenerated from the Go source on every run ----
    Every value-returning builtin whose result carries operand data (append len min max complex real imag ssa:wrapnilchk), at
-   every arity at which isHandledBuiltinCall claims it, is handled by a doBuiltinCall case that transfers from ALL operands --
-   except the known defect F2 (min/max with other than 2 operands; `known_exception`), which disappears from the table when
-   the code is repaired (the theorem holds with and without the repair). *)
+   every arity at which isHandledBuiltinCall claims it (0..4 and the class ">= 5"), is handled by a doBuiltinCall case that
+   transfers from ALL operands.  (Until fix a1b576c the statement carried an exception for min/max with other than two
+   operands -- finding builtin-minmax-arity; the exception is retired, so a regression breaks this theorem.) *)
 Theorem builtins_transfer_all : forall g, In g go_builtins -> builtin_ok handled_table do_table g = true.
 Proof. apply forallb_forall. vm_compute. reflexivity. Qed.
 
@@ -61,11 +61,9 @@ Proof. apply forallb_forall. vm_compute. reflexivity. Qed.
 Theorem row_any_arity_sound : forall tbl name, row_any_arity tbl name = true -> forall n, some_row_transfers_all tbl name n = true.
 Proof. exact Proofs.BuiltinTbl.row_any_arity_sound. Qed.
 
-(* the defect is present in the table as generated from the pinned tree (re-proved per run: [min_arity3_status] is a
-   disjunction so that it also holds after the repair) *)
-Example min_arity3_status :
-  some_row_transfers_all do_table "min" 3 = false \/ row_any_arity do_table "min" = true.
-Proof. vm_compute. first [left; reflexivity | right; reflexivity]. Qed.
+(* min / max are all-operand loops in the table generated from the current tree *)
+Example min_any_arity : some_row_transfers_all do_table "min" 3 = true /\ row_any_arity do_table "max" = true.
+Proof. vm_compute. split; reflexivity. Qed.
 
 Local Open Scope positive_scope.
 
@@ -133,7 +131,8 @@ Qed.
 Example loop_required : required_edges F_loop 20%nat = [(1, 2); (2, 1)].
 Proof. vm_compute. reflexivity. Qed.
 
-(* ---- the statement is sharp: the implementation's real final states below are NOT closed (known findings) -------------- *)
+(* ---- the statement is sharp: the real final states below, dumped from the tree BEFORE the fix commits e5a6fa9 / a1b576c /
+   e1856b7 (snapshot 25e32d0), are NOT closed; on the current tree the same functions validate (corpus/c08/regress1) -------- *)
 
 (* func three(a string) (int, int, string) { return 1, 2, a }: addReturnEdge drops tuple index 2 > #return instructions *)
 (* F 64 p1.three 1 1 3 1 3 user *)
@@ -150,8 +149,9 @@ Definition S_three : list fact :=
 Example three_wf : check_wf_ssa F_three = true. Proof. vm_compute. reflexivity. Qed.
 Example three_violations : violations F_three S_three = [VEdge 1 1 1 3]. Proof. vm_compute. reflexivity. Qed.
 
-(* "the state the summary is built from is closed under R" is refuted for the implementation as it is: witness = the real
-   dump of func three (finding return-tuple-index-bound); the chain parameter a -> result #2 is not covered *)
+(* "the state the summary is built from is closed under R" was refuted for the implementation at 25e32d0: witness = its real
+   dump of func three (finding return-tuple-index-bound, fixed by e5a6fa9); the chain parameter a -> result #2 is not covered.
+   Kept as the witness that closedness and chain coverage can fail on real analysis output. *)
 Theorem impl_state_closed_refuted :
   exists F l, wf_ssa F /\ ~ closed F (fun f => In f l) /\
               exists m p0 v0 p u, is_origin F m p0 v0 /\ chain F m v0 v0 [] /\ consumes F p v0 u /\ ~ In (Edge m u) l.
@@ -163,7 +163,7 @@ Proof.
     intros [H|[]]. discriminate.
 Qed.
 
-(* func mx(a, b, c int) int { return max(a, b, c) }: doBuiltinCall handles exactly two operands (finding builtin-minmax-arity) *)
+(* func mx(a, b, c int) int { return max(a, b, c) }: doBuiltinCall handles exactly two operands (finding builtin-minmax-arity, fixed by a1b576c) *)
 (* F 55 p1.mx 1 2 5 1 1 user *)
 Definition F_mx : func := mk_func
   [(1, {| i_kind := (KBuiltin BMax); i_def := Some 5; i_ops := [1; 2; 3] |});
@@ -179,7 +179,7 @@ Definition S_mx : list fact :=
 Example mx_not_closed : check_closed F_mx S_mx = false. Proof. vm_compute. reflexivity. Qed.
 
 (* _, b := pair(); x, ok := b.(string); return x : the tuple-index filter of transferPre drops the mark of pair's result #1 at
-   Extract #0 of the comma-ok type assertion (finding extract-index-noncall-tuple) *)
+   Extract #0 of the comma-ok type assertion (finding extract-index-noncall-tuple, fixed by e1856b7) *)
 (* F 32 p1.assertSecond 3 9 8 2 1 user *)
 Definition F_assert2 : func := mk_func
   [(1, {| i_kind := KCall; i_def := Some 2; i_ops := [] |});
